@@ -1,0 +1,173 @@
+// SPDX-License-Identifier: LGPL-2.1-or-later
+
+/*
+ * urcu/verif.h
+ *
+ * Verification hooks.  Only ever included under -DURCU_VERIF, from the last
+ * lines of <urcu/arch.h> and <urcu/uatomic.h>.  It re-defines the uatomic
+ * "_mo" primitives, the SMP barriers and caa_cpu_relax() so that every shared
+ * memory access of the library becomes (a) a scheduling point (uv_pre) and
+ * (b) a logged event (uv_post) of an external runtime, while the operation
+ * itself is still performed by the repository's own implementation
+ * (UATOMIC_COMPAT(...), i.e. the x86 inline assembly).  Loads and non seq_cst
+ * stores are routed through uv_do_load()/uv_do_store() so that the runtime can
+ * model x86-TSO store buffers.
+ *
+ * Without -DURCU_VERIF this file is never read and nothing changes.
+ */
+
+#ifndef _URCU_VERIF_H
+#define _URCU_VERIF_H
+
+#ifdef __cplusplus
+extern "C" {
+#endif
+
+enum uv_op {
+	UV_LD, UV_ST, UV_XCHG, UV_CAS, UV_ADDRET, UV_ADD, UV_OR, UV_AND,
+	UV_INC, UV_DEC, UV_MB, UV_RMB, UV_WMB, UV_RELAX,
+};
+
+/* Scheduling point, before the operation. */
+extern void uv_pre(int op, const volatile void *addr, unsigned int sz,
+		int mo, const char *file, int line);
+/* Load / store as seen by the issuing thread (store buffer aware). */
+extern unsigned long uv_do_load(const volatile void *addr, unsigned int sz,
+		int mo);
+extern void uv_do_store(volatile void *addr, unsigned int sz,
+		unsigned long v, int mo);
+/* Event, after the operation, before any other thread can run. */
+extern void uv_post(int op, const volatile void *addr, unsigned int sz,
+		unsigned long a, unsigned long b, unsigned long res, int mo,
+		const char *file, int line);
+
+#ifdef __cplusplus
+}
+#endif
+
+#endif /* _URCU_VERIF_H */
+
+/* ---- part A: uatomic primitives (evaluated at the end of <urcu/uatomic.h>) ---- */
+#if defined(_URCU_UATOMIC_VERIF_POINT) && !defined(_URCU_VERIF_UATOMIC_DONE)
+#define _URCU_VERIF_UATOMIC_DONE
+
+#if !defined(URCU_ARCH_X86) || defined(CONFIG_RCU_USE_ATOMIC_BUILTINS)
+#error "URCU_VERIF hooks wrap the x86 uatomic implementation only"
+#endif
+
+#undef uatomic_load_mo
+#define uatomic_load_mo(addr, mo)						\
+	__extension__ ({							\
+		uv_pre(UV_LD, (addr), sizeof(*(addr)), (mo), __FILE__, __LINE__); \
+		__typeof__(*(addr)) _uv_v = (__typeof__(*(addr)))		\
+			uv_do_load((addr), sizeof(*(addr)), (mo));		\
+		uv_post(UV_LD, (addr), sizeof(*(addr)), 0, 0,			\
+			(unsigned long) _uv_v, (mo), __FILE__, __LINE__);	\
+		cmm_seq_cst_fence_after_atomic(mo);				\
+		_uv_v;								\
+	})
+
+#undef uatomic_store_mo
+#define uatomic_store_mo(addr, v, mo)						\
+	do {									\
+		__typeof__(*(addr)) _uv_sv = (__typeof__(*(addr))) (v);	\
+		uv_pre(UV_ST, (addr), sizeof(*(addr)), (mo), __FILE__, __LINE__); \
+		uv_do_store((addr), sizeof(*(addr)), (unsigned long) _uv_sv, (mo)); \
+		uv_post(UV_ST, (addr), sizeof(*(addr)), (unsigned long) _uv_sv,	\
+			0, 0, (mo), __FILE__, __LINE__);			\
+		cmm_seq_cst_fence_after_atomic(mo);				\
+	} while (0)
+
+#undef uatomic_xchg_mo
+#define uatomic_xchg_mo(addr, v, mo)						\
+	__extension__ ({							\
+		__typeof__(*(addr)) _uv_nv = (__typeof__(*(addr))) (v);	\
+		uv_pre(UV_XCHG, (addr), sizeof(*(addr)), (mo), __FILE__, __LINE__); \
+		__typeof__(*(addr)) _uv_r = UATOMIC_COMPAT(xchg(addr, _uv_nv));	\
+		uv_post(UV_XCHG, (addr), sizeof(*(addr)), (unsigned long) _uv_nv, \
+			0, (unsigned long) _uv_r, (mo), __FILE__, __LINE__);	\
+		_uv_r;								\
+	})
+
+#undef uatomic_cmpxchg_mo
+#define uatomic_cmpxchg_mo(addr, old, _new, mos, mof)				\
+	__extension__ ({							\
+		__typeof__(*(addr)) _uv_o = (__typeof__(*(addr))) (old);	\
+		__typeof__(*(addr)) _uv_n = (__typeof__(*(addr))) (_new);	\
+		uv_pre(UV_CAS, (addr), sizeof(*(addr)), (mos), __FILE__, __LINE__); \
+		__typeof__(*(addr)) _uv_r =					\
+			UATOMIC_COMPAT(cmpxchg(addr, _uv_o, _uv_n));		\
+		uv_post(UV_CAS, (addr), sizeof(*(addr)), (unsigned long) _uv_o,	\
+			(unsigned long) _uv_n, (unsigned long) _uv_r, (mos),	\
+			__FILE__, __LINE__);					\
+		_uv_r;								\
+	})
+
+#undef uatomic_add_return_mo
+#define uatomic_add_return_mo(addr, v, mo)					\
+	__extension__ ({							\
+		uv_pre(UV_ADDRET, (addr), sizeof(*(addr)), (mo), __FILE__, __LINE__); \
+		__typeof__(*(addr)) _uv_r = UATOMIC_COMPAT(add_return(addr, v)); \
+		uv_post(UV_ADDRET, (addr), sizeof(*(addr)), (unsigned long) (v), \
+			0, (unsigned long) _uv_r, (mo), __FILE__, __LINE__);	\
+		_uv_r;								\
+	})
+
+#define _uv_void_rmw(OP, insn, addr, v, mo)					\
+	do {									\
+		uv_pre(OP, (addr), sizeof(*(addr)), (mo), __FILE__, __LINE__);	\
+		UATOMIC_COMPAT(insn);						\
+		uv_post(OP, (addr), sizeof(*(addr)), (unsigned long) (v), 0,	\
+			(unsigned long) *(addr), (mo), __FILE__, __LINE__);	\
+	} while (0)
+
+#undef uatomic_or_mo
+#define uatomic_or_mo(addr, v, mo)	_uv_void_rmw(UV_OR, or(addr, v), addr, v, mo)
+#undef uatomic_and_mo
+#define uatomic_and_mo(addr, v, mo)	_uv_void_rmw(UV_AND, and(addr, v), addr, v, mo)
+#undef uatomic_add_mo
+#define uatomic_add_mo(addr, v, mo)	_uv_void_rmw(UV_ADD, add(addr, v), addr, v, mo)
+#undef uatomic_inc_mo
+#define uatomic_inc_mo(addr, mo)	_uv_void_rmw(UV_INC, inc(addr), addr, 1, mo)
+#undef uatomic_dec_mo
+#define uatomic_dec_mo(addr, mo)	_uv_void_rmw(UV_DEC, dec(addr), addr, 1, mo)
+
+#endif /* part A */
+
+/* ---- part B: barriers and busy-wait hint (evaluated at the end of <urcu/arch.h>) ---- */
+#if defined(_URCU_ARCH_VERIF_POINT) && !defined(_URCU_VERIF_ARCH_DONE)
+#define _URCU_VERIF_ARCH_DONE
+
+#define _uv_real_smp_mb()	__asm__ __volatile__ ("mfence":::"memory")
+
+#undef cmm_smp_mb
+#define cmm_smp_mb()								\
+	do {									\
+		uv_pre(UV_MB, 0, 0, 0, __FILE__, __LINE__);			\
+		_uv_real_smp_mb();						\
+		uv_post(UV_MB, 0, 0, 0, 0, 0, 0, __FILE__, __LINE__);		\
+	} while (0)
+
+#undef cmm_smp_rmb
+#define cmm_smp_rmb()								\
+	do {									\
+		cmm_barrier();							\
+		uv_post(UV_RMB, 0, 0, 0, 0, 0, 0, __FILE__, __LINE__);		\
+	} while (0)
+
+#undef cmm_smp_wmb
+#define cmm_smp_wmb()								\
+	do {									\
+		cmm_barrier();							\
+		uv_post(UV_WMB, 0, 0, 0, 0, 0, 0, __FILE__, __LINE__);		\
+	} while (0)
+
+#undef caa_cpu_relax
+#define caa_cpu_relax()								\
+	do {									\
+		uv_pre(UV_RELAX, 0, 0, 0, __FILE__, __LINE__);			\
+		cmm_barrier();							\
+		uv_post(UV_RELAX, 0, 0, 0, 0, 0, 0, __FILE__, __LINE__);	\
+	} while (0)
+
+#endif /* part B */
